@@ -244,7 +244,14 @@ async def one_run(loop, ctx, cmdset, mode, order=None):
         uidmap = {}
         order_log = []
         if mode == "concurrent":
-            tasks = [asyncio.create_task(run_session(rig, idx, where, cmds, k, results, uidmap, order_log)) for idx, (where, cmds) in enumerate(cmdset)]
+            # command arrival order is part of the schedule: which session's first
+            # command the server sees first is drawn from the scheduler's generator
+            # (FIFO schedule and replays: session order)
+            arrival = list(enumerate(cmdset))
+            if getattr(loop, "rng", None) is not None and getattr(loop, "strategy", None) is not fifo_all_strategy and getattr(loop, "replay", None) is None:
+                loop.rng.shuffle(arrival)
+            info["arrival"] = [i for i, _ in arrival]
+            tasks = [asyncio.create_task(run_session(rig, idx, where, cmds, k, results, uidmap, order_log)) for idx, (where, cmds) in arrival]
             done, pending = await asyncio.wait(tasks, timeout=600)
             for t in pending:
                 t.cancel()
